@@ -119,8 +119,23 @@ def run_eop(ctx, maxsteps):
     if len(leaves) > cap:
         leaves = rnd.sample(sorted(leaves), cap)
         ctx.extra["eop_behaviours_sampled"] = cap
+    # deep histories of requests on ONE database (covered / uncovered days in every order, policy changes in between)
+    deep = maxsteps + 2
+    name2, mc2, cl2 = tlcmod.wrap("Eop", {"Names": {"a"}, "MaxSteps": deep}, name="MCEopRequests")
+    cfg2 = "SPECIFICATION Spec\n" + cl2 + "INVARIANT ValuesOnlyWhenCovered\nCONSTRAINT RequestsOnly\nCHECK_DEADLOCK FALSE\n"
+    r2 = ctx.tlc(name2, label=f"Eop requests on one database, {deep} steps", cfg_text=cfg2, extra_files={name2 + ".tla": mc2}, workers=8, dump=True)
+    by2 = {}
+    for s in r2.dump:
+        h = tuple(s["hist"])
+        if h and (h[0][0] != "register" or any(a[0] not in ("get", "policy") for a in h[1:])):
+            continue
+        by2[(s["db0"], h)] = s
+    deep_leaves = [k for k in by2 if len(k[1]) == deep and sum(1 for a in k[1] if a[0] == "get") >= 3]
+    if len(deep_leaves) > (1500 if ctx.tier == "quick" else 20000):
+        deep_leaves = rnd.sample(sorted(deep_leaves), 1500 if ctx.tier == "quick" else 20000)
+    by.update(by2)
     behs = []
-    for db0, hist in leaves:
+    for force_real, (db0, hist) in [(False, k) for k in leaves] + [(True, k) for k in deep_leaves]:
         acts = []
         for k, a in enumerate(hist):
             act = {"op": a[0], "name": a[1], "kind": a[2]}
@@ -130,9 +145,16 @@ def run_eop(ctx, maxsteps):
                 act["expect"] = post["outcome"]
                 act["instantiates"] = pre["dbs"][pre["dbname"]] in ("class_ok", "class_bad")
             acts.append(act)
-        behs.append({"dbname0": db0, "hist": acts})
+        behs.append({"dbname0": db0, "hist": acts, "real": force_real})
+    # values of three covered days, read by the independent reader, for the behaviours replayed on the real table database
+    days = [50003, 55000, 57000]
+    _m, steps, ut1 = eopgen.eop_module(REPO, days)
+    table = {}
+    for d in days:
+        tu = max(v for (dd, v) in steps if dd <= d)
+        table[str(d)] = [ut1[d], tu]
     chunks = [behs[i::8] for i in range(8) if behs[i::8]]
-    for res in ctx.harness_parallel("daterange_replay.py", [{"repo": REPO, "eop_behaviours": c} for c in chunks], procs=8):
+    for res in ctx.harness_parallel("daterange_replay.py", [{"repo": REPO, "eop_behaviours": c, "table": table} for c in chunks], procs=8):
         ctx.absorb(res)
     ctx.extra["eop_behaviours"] = len(behs)
 
